@@ -776,6 +776,8 @@ func main() {
 					r.Violation(c, "panic:ServeAgent:upstream-hangs-up", res.panicked, rec)
 				case res.hung:
 					r.Violation(c, "serving-never-ends:upstream-hangs-up", "", rec)
+				case len(res.responses) > map[bool]int{false: 1, true: 2}[more]:
+					r.Violation(c, "more-responses-than-requests:upstream-hangs-up", fmt.Sprintf("%d complete requests in the stream, %d response frames came back (ServeAgent returned %v)", map[bool]int{false: 1, true: 2}[more], len(res.responses), res.err), rec)
 				case res.err == nil && len(res.responses) == 0:
 					r.Violation(c, "relayed-request-neither-answered-nor-refused", fmt.Sprintf("the underlying agent closed the connection on the relayed request (code %d); ServeAgent wrote no response and returned nil", code), rec)
 				default:
